@@ -194,8 +194,8 @@ def matchSimple (cs : List Char) : Option (String × Nat) :=
   | some p => some (p.1, p.2.length)
   | none => none
 
-def nonGreedyQuotes : Bool := BdGrammar.stringLiteralRegex == "\\\".*?\\\""
-def nonGreedyChars : Bool := BdGrammar.charLiteralRegex == "'.*?'"
+def nonGreedyQuotes : Bool := BdGrammar.stringLiteralNonGreedy
+def nonGreedyChars : Bool := BdGrammar.charLiteralNonGreedy
 
 /-- content of a quoted literal starting after the opening quote: up to the first (non-greedy) or last (greedy)
     closing quote on the same line -/
